@@ -150,7 +150,7 @@ def main(chk: Check):
     chk.check_fingerprint(ANCHORS)
     chk.note("partial: a completed call is assumed durable (no page-cache loss / reordering of a real power cut); "
              "kernel semantics as in C18")
-    ncases = int(os.environ.get("VERIF_C19_CASES", 0)) or chk.n(12, 60)   # env: self-test budget override
+    ncases = int(os.environ.get("VERIF_C19_CASES", 0)) or chk.n(12, 150)   # env: self-test budget override
     max_points = chk.n(24, 60)
     work = chk.scratch / "c19"
     work.mkdir()
